@@ -547,7 +547,7 @@ func mapOrderVerdictRule(P *Program, R *Report) {
 						continue
 					}
 					for i := range ret.Results {
-						if isErrorType(ret.Results[i].Type()) {
+						if isErrorType(retValue(ret, i).Type()) {
 							continue // which element's error is reported may vary; the verdict (rejection) does not
 						}
 						d := desc(retValue(ret, i))
